@@ -81,6 +81,9 @@ def run(res, tier, rng, table_diffs=()):
     for f in fmts:
         for a in argsets:
             progs.append("print(%s)" % ", ".join(['"%s"' % f] + a))
+    progs += ['stel b = [1, 2]; print("{} en {}", [b, b], b)', 'stel b = [1, 2]; print([b, [b], "x"])', 'stel b = [1]; stel c = [b, b]; print([c, c, b]); string([c, b])',
+              'stel b = [1, 2]; stel a = [b, b]; a[0] = a; print(a); print(b); print([b, b])', 'stel b = []; print([b, b, [b, [b]]])', 'stel s = "x"; print([s, s, [s]])',
+              'stel b = [1.5]; [string([b, b]), string([[b], b])]']
     progs += ["print()", "print(1)", "print([1, [2, \"x\"]], 2)", "stel a = [1]; a[0] = a; print(a); print(\"{}\", a)",
               "print(1.0 / 0.0, 0.0 - 0.0, 0.1 + 0.2, 100000000000000000000000.0, 0.000001)"]
     # number -> text -> number
